@@ -6,6 +6,7 @@ import MimeModel.Spec.All
 import MimeModel.Spec.Json
 import MimeModel.Spec.Zip
 import MimeModel.Model.XmlTok
+import MimeModel.Model.HtmlTok
 /-
   Line-protocol driver for the correspondence check (core Lean only; compiled).
   Input : one operation per line, `op args... => go-result`
@@ -146,6 +147,15 @@ def showParse (r : Bytes × List (Bytes × Bytes) × MT.PErr) : String :=
 
 def isAsciiBytes (b : Bytes) : Bool := b.all (· < 0x80)
 
+/-- the start tags computed by the tokenizer model against the ones the real x/net/html tokenizer reported;
+    `none` from the model = an attribute value contains `&` (character references are not modelled) -/
+def tagsDiff (h : Bytes) (goTags : List Charset.Tag) : String :=
+  match HtmlTok.startTags h with
+  | none => ""
+  | some mt =>
+    if mt.map (fun t => (t.name, t.attrs)) == goTags.map (fun t => (t.name, t.attrs)) then ""
+    else s!"DIFF htmltok model-tags={mt.length} go-tags={goTags.length}"
+
 def showInst : Option Bytes → String
   | none => "~"
   | some b => bhex b
@@ -253,7 +263,8 @@ def handle (line : String) : String :=
         let chain := path.reverse
         let mi := XmlTok.firstProcInst (trimLWS h)
         let dxi := if mi == ins then "" else s!"DIFF xmlinst model={showInst mi}"
-        let ext : Ext := { cust := fun _ _ _ => false, htmlToks := fun _ => tg, xmlInst := fun x => XmlTok.firstProcInst (trimLWS x) }
+        let dht := tagsDiff h tg
+        let ext : Ext := { cust := fun _ _ _ => false, htmlToks := fun x => (HtmlTok.startTags x).getD tg, xmlInst := fun x => XmlTok.firstProcInst (trimLWS x) }
         let cs := match chain with
           | [] => []
           | leaf :: _ => charsetFor ext leaf.mime h
@@ -309,7 +320,7 @@ def handle (line : String) : String :=
             let pre := ofString "text/plain; charset="
             if hasPrefix gleaf pre then Spec.charsetSpec h (bhex (gleaf.drop pre.length)) else ""
           | none => ""
-        let all := [d1, d2, dxi, sp, sp8, sp11].filter (· != "")
+        let all := [d1, d2, dxi, dht, sp, sp8, sp11].filter (· != "")
         if all.isEmpty then "OK" else String.intercalate " ; " all
       | _, _, _, _ => "BAD args"
     | ["jparse", q, hx] =>
@@ -331,8 +342,12 @@ def handle (line : String) : String :=
     | ["cs", "html", hx, toks] =>
       match unhex hx, parseTags toks with
       | some raw, some tg =>
-        let m := bhex (Charset.fromHTML raw tg)
-        if m == goRes then "OK" else s!"DIFF cs-html model={m}"
+        let dt := tagsDiff raw tg
+        let mtg := (HtmlTok.startTags raw).getD tg
+        let m := bhex (Charset.fromHTML raw mtg)
+        let d := if m == goRes || !isAsciiBytes (Charset.fromHTML raw mtg) then "" else s!"DIFF cs-html model={m}"
+        let all := [dt, d].filter (· != "")
+        if all.isEmpty then "OK" else String.intercalate " ; " all
       | _, _ => "BAD args"
     | ["cs", "xml", hx, inst] =>
       match unhex hx, parseInst inst with
